@@ -1,6 +1,7 @@
 package kernel
 
 import (
+	"fmt"
 	"runtime"
 	"sync"
 	"sync/atomic"
@@ -158,6 +159,45 @@ type Sched struct {
 // phase). It is written by the main goroutine before the fork and after the
 // join only.
 var Current *Sched
+
+// Debugging aid (VERIF_TRACE): every scheduling decision of the run in
+// progress, to compare two executions of one tape.
+var (
+	TraceOn  bool
+	traceBuf [1 << 15]traceRec
+	traceN   int
+)
+
+type traceRec struct {
+	step, from, kind, k, n int
+	skipped                int
+	label                  string
+	mask                   uint64
+	now                    int64
+}
+
+// TraceLines renders and clears the recorded decisions.
+func TraceLines() []string {
+	out := make([]string, 0, traceN)
+	for i := 0; i < traceN; i++ {
+		r := traceBuf[i]
+		out = append(out, fmt.Sprintf("step=%d from=%d kind=%d label=%s tasks=%d runnable=%d mask=%b now=%d skippedUnderLock=%d", r.step, r.from, r.kind, r.label, r.n, r.k, r.mask, r.now, r.skipped))
+	}
+	traceN = 0
+	return out
+}
+
+// Cur returns Current without the race detector seeing the read: hooks of the
+// code under test call it from goroutines the harness has no happens-before
+// relation with (a goroutine of the code under test started during a serial
+// reference resolution, reading it in its deferred exit hook after it has
+// signalled its own join).
+//
+//go:norace
+func Cur() *Sched { return Current }
+
+//go:norace
+func setCurrent(s *Sched) { Current = s }
 
 // NewSched creates a scheduler drawing from tape.
 func NewSched(tape *Tape, cfg Config) *Sched {
@@ -417,6 +457,21 @@ func hasPrefixB(b []byte, p string) bool {
 //go:norace
 func (s *Sched) pick(t *Task, kind int, label string) *Task {
 	k := s.runnable(t)
+	if TraceOn && traceN < len(traceBuf) {
+		r := &traceBuf[traceN]
+		traceN++
+		r.step, r.from, r.kind, r.label, r.k, r.now, r.n = s.Yields, -1, kind, label, k, s.now, s.n
+		r.skipped = s.SkippedUnderLock
+		if t != nil {
+			r.from = t.ID
+		}
+		r.mask = 0
+		for i := 0; i < k; i++ {
+			if s.cand[i] < 64 {
+				r.mask |= 1 << uint(s.cand[i])
+			}
+		}
+	}
 	if k == 0 {
 		return nil
 	}
@@ -767,7 +822,7 @@ func (s *Sched) Run(fns []func(*Task)) bool {
 	for i := range fns {
 		s.tasks[i] = &Task{ID: i, wake: make(chan struct{}, 1)}
 	}
-	Current = s
+	setCurrent(s)
 	for i, fn := range fns {
 		wg.Add(1)
 		go s.taskMain(s.tasks[i], fn, wg)
@@ -789,7 +844,7 @@ func (s *Sched) Run(fns []func(*Task)) bool {
 		select {
 		case <-done:
 			s.active = false
-			Current = nil
+			setCurrent(nil)
 			return true
 		case <-s.giveUp:
 			return false
